@@ -426,6 +426,12 @@ func c13R3(c *Ctx, rule string) {
 			c.Check(rule, c.P.Name(s.Fn)+":lastContact-value", c.P.InstrPos(s.Instr), "the stored time is time.Now()", c.P.D(v) == "time.Now()", "= "+c.P.D(v), 1)
 		}
 	}
+	// the contact time is refreshed by EVERY acknowledged exchange: a setter
+	// that skips the write ("already fresh enough") makes the recorded contact
+	// lag behind the real one by an amount unrelated to LeaderLeaseTimeout, and
+	// a healthy leader deposes itself (round-7 seed C13-N)
+	settersUnconditional(c, rule, "(*followerReplication).setLastContact", "followerReplication", "lastContact")
+	settersUnconditional(c, rule, "(*Raft).setLastContact", "Raft", "lastContact")
 	if fn := c.Fn(rule, "(*followerReplication).LastContact"); fn != nil {
 		for _, ret := range engine.ReturnsOf(fn) {
 			d := c.P.D(engine.ReturnValues(ret)[0])
